@@ -33,7 +33,7 @@ func (a *c04Acceptor) Check(e zapcore.Entry, ce *zapcore.CheckedEntry) *zapcore.
 	return ce
 }
 func (a *c04Acceptor) Write(e zapcore.Entry, fs []zapcore.Field) error { return a.inner.Write(e, fs) }
-func (a *c04Acceptor) Sync() error                                      { return a.inner.Sync() }
+func (a *c04Acceptor) Sync() error                                     { return a.inner.Sync() }
 
 // propC04WriteForwarded: goroutines log through a wrapper of that kind over compositions of zap's own forwarding cores
 // (io core, With-derived, tee of branches with their own levels, lazy, level-increased, sampler); the wrapper accepts
